@@ -32,10 +32,19 @@ def rule_commit_source(ctx):
     fc = ctx.fn(f"{CONSUMER}.commit")
     c = ctx.cfg(fc)
     co = ctx.one(_awaits(c, "commit_offsets"), "await commit_offsets in Consumer.commit")
-    ds = local_defs(c, "offsets")
-    nt = [t for t in c.nodes if t.kind == "test" and is_none_test(t.ast) is not None and unparse(is_none_test(t.ast)) == "offsets"]
+    # the user's argument is the second parameter; what is committed is whatever local reaches commit_offsets (the parameter rebound, or a
+    # local of its own)
+    upar = fc.params()[1]
+    cargs = [unparse(x) for x in co.ast.value.args]
+    sent = cargs[1] if len(cargs) == 2 else upar
+    ds = local_defs(c, sent)
+    nt = [t for t in c.nodes if t.kind == "test" and is_none_test(t.ast) is not None and unparse(is_none_test(t.ast)) == upar]
     dflt = [d for d in ds if unparse(def_value(d)) == "assignment.all_consumed_offsets()"]
-    ok = len(nt) == 1 and len(dflt) == 1 and c.dominated_by_branch(nt[0], "T", dflt[0]) and [unparse(x) for x in co.ast.value.args] == ["assignment", "offsets"]
+    ok = len(nt) == 1 and len(dflt) == 1 and c.dominated_by_branch(nt[0], "T", dflt[0]) and cargs == ["assignment", sent] and sent.isidentifier()
+    if ok and sent != upar:
+        # a local of its own: on the other branch it is the validated copy of the user's argument, and nothing else
+        other = [d for d in ds if d is not dflt[0]]
+        ok = len(other) == 1 and unparse(def_value(other[0])) == f"commit_structure_validate({upar})" and c.dominated_by_branch(nt[0], "F", other[0])
     ctx.ob(R, fc, fc.node, ok, "commit() without arguments does not commit the consumed positions of the current assignment", text="api-default")
     if dflt:
         nos, w = ctx.no_suspension_between(fc, dflt[0], co)
